@@ -368,6 +368,9 @@ func (x *Exec) execInstr(fr *Frame, ins ssa.Instruction) {
 			vals = append(vals, x.valueOf(fr, r))
 		}
 		if fr.top {
+			if x.probing == 0 {
+				x.returnPoints = append(x.returnPoints, returnPoint{line: x.prog.fset.Position(i.Pos()).Line, prefix: len(x.lines), pc: pc})
+			}
 			x.checkPost(fr, vals, st, pc)
 		}
 		fr.rets = append(fr.rets, retPoint{pc: pc, st: st, vals: vals})
